@@ -324,4 +324,96 @@ theorem mem_results {fw : Fw} {o : ColOrder} {steps : List Step} {ts : List (Lis
     · cases hm
   · rintro ⟨s, hs, hm⟩; exact ⟨s, hs, by rw [hm]⟩
 
+/-! ### feature sets -/
+
+def members (bs : List Bucket) : List TFeat := bs.flatMap (·.2)
+
+theorem members_insertBucket (bs : List Bucket) (k : Nat × Option Nat) (f : TFeat) :
+    (members (insertBucket bs k f)).Perm (members bs ++ [f]) := by
+  induction bs with
+  | nil => simp [insertBucket, members]
+  | cons b bs ih =>
+    unfold insertBucket
+    split
+    · simp only [members, List.flatMap_cons, List.append_assoc]
+      exact (List.perm_append_comm (l₁ := [f]) (l₂ := List.flatMap (·.2) bs)).append_left b.2
+    · simp only [members, List.flatMap_cons, List.append_assoc] at ih ⊢
+      exact ih.append_left b.2
+
+theorem members_joinFirst (bs : List Bucket) (f : TFeat) : (members (joinFirst bs f)).Perm (members bs ++ [f]) := by
+  induction bs with
+  | nil => simp [joinFirst, members]
+  | cons b bs ih =>
+    unfold joinFirst
+    split
+    · simp only [members, List.flatMap_cons, List.append_assoc]
+      exact (List.perm_append_comm (l₁ := [f]) (l₂ := List.flatMap (·.2) bs)).append_left b.2
+    · simp only [members, List.flatMap_cons, List.append_assoc] at ih ⊢
+      exact ih.append_left b.2
+
+theorem members_foldl_insert (fs : List TFeat) : ∀ bs : List Bucket,
+    (members (fs.foldl (fun bs f => insertBucket bs (f.opt, f.dtype) f) bs)).Perm (members bs ++ fs) := by
+  induction fs with
+  | nil => intro bs; simp
+  | cons f fs ih =>
+    intro bs
+    simp only [List.foldl_cons]
+    refine (ih _).trans ?_
+    have := (members_insertBucket bs (f.opt, f.dtype) f).append_right fs
+    simpa [List.append_assoc] using this
+
+theorem members_foldl_join (fs : List TFeat) : ∀ bs : List Bucket,
+    (members (fs.foldl joinFirst bs)).Perm (members bs ++ fs) := by
+  induction fs with
+  | nil => intro bs; simp
+  | cons f fs ih =>
+    intro bs
+    simp only [List.foldl_cons]
+    refine (ih _).trans ?_
+    have := (members_joinFirst bs f).append_right fs
+    simpa [List.append_assoc] using this
+
+/-- buckets keep the first-pass discipline: every typed member carries the bucket's key -/
+def KeyOK (b : Bucket) : Prop := ∀ f ∈ b.2, f.opt = b.1.1 ∧ (f.dtype.isSome → f.dtype = b.1.2)
+
+theorem keyOK_insertBucket (bs : List Bucket) (f : TFeat) (h : ∀ b ∈ bs, KeyOK b) :
+    ∀ b ∈ insertBucket bs (f.opt, f.dtype) f, KeyOK b := by
+  induction bs with
+  | nil => intro b hb; simp [insertBucket] at hb; subst hb; intro x hx; simp at hx; subst hx; exact ⟨rfl, fun _ => rfl⟩
+  | cons b0 bs ih =>
+    intro b hb
+    unfold insertBucket at hb
+    split at hb
+    · rename_i hk
+      have hk' : b0.1 = (f.opt, f.dtype) := by simpa using hk
+      rcases List.mem_cons.mp hb with rfl | hb
+      · intro x hx
+        rcases List.mem_append.mp hx with hx | hx
+        · exact h b0 (by simp) x hx
+        · simp at hx; subst hx; simp [hk']
+      · exact h b (by simp [hb])
+    · rcases List.mem_cons.mp hb with rfl | hb
+      · exact h b (by simp)
+      · exact ih (fun b' hb' => h b' (by simp [hb'])) b hb
+
+theorem keyOK_joinFirst (bs : List Bucket) (f : TFeat) (hf : f.dtype = none) (h : ∀ b ∈ bs, KeyOK b) :
+    ∀ b ∈ joinFirst bs f, KeyOK b := by
+  induction bs with
+  | nil => intro b hb; simp [joinFirst] at hb; subst hb; intro x hx; simp at hx; subst hx; simp [hf]
+  | cons b0 bs ih =>
+    intro b hb
+    unfold joinFirst at hb
+    split at hb
+    · rename_i hk
+      have hk' : b0.1.1 = f.opt := by simpa using hk
+      rcases List.mem_cons.mp hb with rfl | hb
+      · intro x hx
+        rcases List.mem_append.mp hx with hx | hx
+        · exact h b0 (by simp) x hx
+        · simp at hx; subst hx; simp [hk', hf]
+      · exact h b (by simp [hb])
+    · rcases List.mem_cons.mp hb with rfl | hb
+      · exact h b (by simp)
+      · exact ih (fun b' hb' => h b' (by simp [hb'])) b hb
+
 end Select
